@@ -189,3 +189,46 @@ def random_history(r, n_ops=40, group_function=False):
     if r.random() < 0.7:
         ops.append('P')
     return line + ' | ' + ' ; '.join(ops)
+
+
+def api_op(r, ndev, own):
+    """one public call of the application (harness ops Q / I / D / X; Model/ApiDefs.v)"""
+    idev = r.choice(list(range(ndev)) * 3 + [-1, ndev, ndev + 3])
+    x = r.random()
+    if x < 0.14:
+        return 'Q ac %d %d %d' % (r.choice([255, 255, 50, own[0]]), idev, r.choice([0, 0, 1, 2, 50, 300]))
+    if x < 0.26:
+        return 'Q pi %d' % idev
+    if x < 0.38:
+        return 'Q ci %d' % idev
+    if x < 0.48:
+        return 'Q tx %d %d %d' % (r.choice([255, 50, 77]), idev, r.choice([0, 0, 0, 1]))
+    if x < 0.58:
+        return 'Q rx %d %d %d' % (r.choice([255, 50, 77]), idev, r.choice([0, 0, 0, 1]))
+    if x < 0.68:
+        return 'Q hb %d' % r.choice([0, 1, 1])
+    if x < 0.72:
+        return 'Q hd %d' % idev
+    if x < 0.76:
+        return 'Q hi %d %d' % (r.choice([0, 1000, 5000, 30000, 60000, 655320, 700000, 4294967295, 4294967294]), r.choice([-1, -1, 0, idev]))
+    if x < 0.88:
+        return 'I %d %d %d %d' % (idev, r.choice([255, 0, 1, 7, 8, 254]), r.choice([255, 0, 1, 31, 32, 200]), r.choice([255, 0, 1, 15, 16, 240]))
+    if x < 0.96:
+        return 'D %d %d %d %d %d %d' % (idev, r.choice([4294967295, 0, 1, 2097151, 2097152, 123456]), r.choice([255, 0, 130, 254]), r.choice([255, 0, 25, 127, 128]),
+                                        r.choice([65535, 0, 2046, 2047, 2048, 275]), r.choice([255, 0, 4, 7, 8, 15]))
+    return 'X'
+
+
+def random_history_api(r, n_ops=40):
+    """random_history with public calls mixed in (about one op in four)"""
+    case = random_history(r, n_ops)
+    head, ops = case.split(' | ', 1)
+    cfg = dict(kv.split('=', 1) for kv in head.split()[1:] if '=' in kv)
+    ndev, src0 = int(cfg.get('ndev', 1)), int(cfg.get('src', 22))
+    own = [own_addr(src0, i) for i in range(ndev)]
+    out = []
+    for o in ops.split(' ; '):
+        out.append(o)
+        if r.random() < 0.3:
+            out.append(api_op(r, ndev, own))
+    return head + ' | ' + ' ; '.join(out)
